@@ -123,6 +123,22 @@ def run_documents(ck, T, n, depth, prop="C01"):
     gen = gdsgen.Gen(T, ck.rng)
     order = {c: T.field_order(c) for c in T.order}
     cases = [{"tag": "neuroml", "tree": gen.tree("NeuroMLDocument", depth, full=(j == 0))} for j in range(n)]
+    # fixed documents that run on every run: non-ASCII printable text (outside the Coq string model, inside the property),
+    # <include> children that a plain read must keep, every special character at once
+    cases += [
+        {"tag": "neuroml", "fixed": "non-ascii", "tree": {"cls": "NeuroMLDocument", "kw": [
+            ["id", {"s": "unicode_doc"}], ["notes", {"s": "10 \u00b5m \u2013 caf\u00e9 \u20ac \U0001d6fc \u00df"}],
+            ["properties", {"l": [{"cls": "Property", "kw": [["tag", {"s": "\u00b5"}], ["value", {"s": "\u00e9\u20ac<&>\"'"}]]}]}]]}},
+        {"tag": "neuroml", "fixed": "includes-kept", "tree": {"cls": "NeuroMLDocument", "kw": [
+            ["id", {"s": "with_includes"}],
+            ["includes", {"l": [{"cls": "IncludeType", "kw": [["href", {"s": "not_there_a.nml"}]]},
+                                {"cls": "IncludeType", "kw": [["href", {"s": "sub/not_there_b.nml"}]]}]}],
+            ["iaf_cells", {"l": [{"cls": "IafCell", "kw": [["id", {"s": "c0"}], ["leak_reversal", {"s": "-50mV"}], ["thresh", {"s": "-55mV"}],
+                                                           ["reset", {"s": "-70mV"}], ["C", {"s": "0.2nF"}], ["leak_conductance", {"s": "0.01uS"}]]}]}]]}},
+        {"tag": "neuroml", "fixed": "specials", "tree": {"cls": "NeuroMLDocument", "kw": [
+            ["id", {"s": "specials"}], ["notes", {"s": "a < b && c > d \"q\" 'a' ]]> \n second line &amp; &lt;"}],
+            ["properties", {"l": [{"cls": "Property", "kw": [["tag", {"s": "5' 11\""}], ["value", {"s": "x\ny & <z> ]]>"}]]}]}]]}},
+    ]
     out = ck.try_impl("gds_impl.py", {"mode": "document", "order": order, "cases": cases}, timeout=400, label="documents")
     res = out["results"] if out else []
     for case, r in zip(cases, res):
@@ -134,6 +150,8 @@ def run_documents(ck, T, n, depth, prop="C01"):
             ck.witness(prop + ":document:write-or-load-raises", "writer/loader raised on a generated document: " + r["err"][:300],
                        input=case, observed=r["err"])
             continue
+        for mm in r.get("entry_mismatch", []):
+            ck.witness("%s:entry-point:%s" % (prop, mm.split(" ")[0]), "public writer/loader entry points disagree: " + mm, input=case)
         if prop == "C01":
             if r["back0"] != r["obj"]:
                 diff = [(a[0]) for a, b in zip(r["obj"]["fields"], r["back0"]["fields"]) if a != b][:5]
